@@ -90,7 +90,7 @@ def run(prop, cfg, tier, seed, build, run_shards, VERIF):
         info["notes"].append("race tier: -race build failed")
         info["inconclusive"] = "race build failed"
         return info
-    ldir = os.path.join(VERIF, "logs", prop)
+    ldir = os.path.join(VERIF, "logs", prop + "-race")
     os.makedirs(ldir, exist_ok=True)
     rdir = os.path.join(ldir, "racelogs")
     os.makedirs(rdir, exist_ok=True)
@@ -99,7 +99,7 @@ def run(prop, cfg, tier, seed, build, run_shards, VERIF):
     cfg2 = dict(cfg)
     cfg2["shards"] = {tier: cfg["race"][tier]}
     env = {"VERIF_C19_MODE": "race", "GORACE": "halt_on_error=0 exitcode=0 log_path=%s/race" % rdir}
-    results, problems, nsh = run_shards(prop, cfg2, tier, seed, binpath, extra_env=env)
+    results, problems, nsh = run_shards(prop, cfg2, tier, seed, binpath, extra_env=env, sub="-race")
     info["results"], info["problems"] = results, problems
     nrep, nforeign, seen, obs = 0, 0, {}, {}
     for f in sorted(glob.glob(os.path.join(rdir, "race.*"))):
